@@ -250,6 +250,7 @@ def build(p):
         if not hasattr(PC, "REGISTRY") or not hasattr(PC, "reset"):
             raise RuntimeError("the prometheus_client stand-in of /verif/stubs is not the one on sys.path")
         PC.reset()
+        PC.HOOK[0] = E.upoint      # a scheduling point before every gauge update
         ctx = Ctx()
         nex = [0]
 
